@@ -261,3 +261,68 @@ Definition jrun (ops : list op) : list Z := map obs_z (run_json tmap idm idm ops
 Definition drun (legacy : bool) (ops : list op) : list Z := map obs_z (run_dbm trec idr idr legacy ops).
 Definition qrun (lg ls : bool) (ops : list op) : list Z := map obs_z (run_sqlite trec idr idr lg ls ops).
 Definition srun_ (ops : list op) : list Z := map obs_z (run_spec ops).
+
+(* ================= JsonDB, the text layer under the JSON document (dependency.py 70-93) =================
+   _load does open(self.name, 'r').read() and dump does open(self.name, 'w').write(text): no encoding= is
+   given, so the text <-> bytes conversion is the one of the locale the process of THAT session runs under
+   (locale.getencoding(): ASCII under LC_ALL=C, UTF-8, a legacy 8-bit code page ...).  The file holds bytes;
+   two sessions on one file may run under different locales.
+     B      the bytes of the file,   L  a locale (its preferred encoding)
+     tenc l text = None   <->  text.encode(l) raises UnicodeEncodeError
+     tdec l bytes = None  <->  bytes.decode(l) raises UnicodeDecodeError
+     trunc  the empty file: open(name, 'w') has truncated the file before write() encodes anything
+     locs n the locale of the n-th session (the 0-th creates the file)
+   [Reopen] raises (OExc) when dump's write raises -- the file is then left empty and the object lives on --
+   or when the constructor of the next session raises in _load; in both cases the caller keeps the old
+   object (harness/c07.py does the same). *)
+Section JsonText.
+  Variable F : Type.
+  Variable encdb : tmap -> F.
+  Variable decdb : F -> tmap.
+  Variable B : Type.
+  Variable L : Type.
+  Variable tenc : L -> F -> option B.
+  Variable tdec : L -> B -> option F.
+  Variable trunc : B.
+  Variable locs : nat -> L.
+
+  Record jsondb_l := { jl_bytes : option B;     (* the file; None = does not exist *)
+                       jl_obj : jsondb F;       (* the JsonDB object (its j_file field is not used here) *)
+                       jl_n : nat }.            (* number of the session the object belongs to *)
+  Definition jsonl_step (s : jsondb_l) (o : op) : jsondb_l * obs :=
+    match o with
+    | Reopen =>
+      match tenc (locs (jl_n s)) (encdb (j_db F (jl_obj s))) with                    (* dump 87-93 *)
+      | None => ({| jl_bytes := Some trunc; jl_obj := jl_obj s; jl_n := jl_n s |}, OExc)
+      | Some b =>
+        match tdec (locs (S (jl_n s))) b with                                        (* __init__ / _load 61-85 *)
+        | None => ({| jl_bytes := Some b; jl_obj := jl_obj s; jl_n := S (jl_n s) |}, OExc)
+        | Some f => ({| jl_bytes := Some b; jl_obj := json_open F decdb (Some f); jl_n := S (jl_n s) |}, OUnit)
+        end
+      end
+    | _ => ({| jl_bytes := jl_bytes s; jl_obj := fst (json_step F encdb decdb (jl_obj s) o); jl_n := jl_n s |},
+            snd (json_step F encdb decdb (jl_obj s) o))
+    end.
+  Definition jsonl_init : jsondb_l := {| jl_bytes := None; jl_obj := json_init F decdb; jl_n := 0 |}.
+  Definition run_json_text (ops : list op) : list obs := run jsonl_step jsonl_init ops.
+
+  (* what the theorems assume about the text layer: whatever document the codec produces can be written under
+     the locale of any session and is read back as the same text under the locale of any session.  (True of
+     JSONEncoder() = ensure_ascii=True: the document is pure ASCII and the locale encodings CPython supports
+     agree on ASCII; checked on the real class by part D of harness/c07.py, never proved.) *)
+  Definition text_ok : Prop :=
+    forall m l l', exists b, tenc l (encdb m) = Some b /\ tdec l' b = Some (encdb m).
+End JsonText.
+
+(* an instance where the text layer matters: a document is written raw (not \u-escaped); the locale [false]
+   is ASCII-only and can neither write nor read a document that names task 1 (a non-ASCII id), the locale
+   [true] (UTF-8) can; None = the empty file, not a JSON document *)
+Definition raw_tenc (l : bool) (f : tmap) : option (option tmap) :=
+  if l then Some (Some f) else if has f 1 then None else Some (Some f).
+Definition raw_tdec (l : bool) (b : option tmap) : option tmap :=
+  match b with
+  | None => None
+  | Some f => if l then Some f else if has f 1 then None else Some f
+  end.
+Definition jrun_raw (locs : nat -> bool) (ops : list op) : list Z :=
+  map obs_z (run_json_text tmap idm idm (option tmap) bool raw_tenc raw_tdec None locs ops).
